@@ -30,7 +30,12 @@ Inductive opk :=
 | OpAbiUnpack (tys : list ty) (data : bytes)     (* library correspondence: Arguments.Unpack *)
 (* several operations, one after the other, on ONE registry object: each step with the answers
    the client holds at that moment, the requests recorded during that step and its result *)
-| OpSession (steps : list (opk * (list effect * obsres))).
+| OpSession (steps : list (opk * (list effect * obsres)))
+(* stake / prepay through a real evmclient.EvmClient over a scripted chain node: [s] is the
+   outcome of the Send (SHash: the hash of the transaction the node received), [w] what the
+   chain holds for that transaction, [late]: the client's own watcher had consumed the receipt
+   before the registry started to wait.  The recorded Send is the transaction the node received. *)
+| OpRegisterVia (amount : option Z) (s : sendres) (w : receiptres) (late : bool).
 
 (* kind: 0 = provider registry, 1 = bidder registry.
    abi: for every method of the bindings' ABI JSON whose selector occurs in an observed request:
@@ -142,6 +147,10 @@ Definition agrees1 (c : case) : bool :=
       | _, _ => false
       end
   | OpSession _ => false
+  | OpRegisterVia amt s w late =>
+      let (t, r) := register kec cfg (reg c) amt s (evm_wait late w) in
+      trace_eqb t (trace c)
+      && match res c with ObsReg o => reg_code r =? o | _ => false end
   end.
 
 (* one step of a session, seen as a case of its own (same registry, same tables) *)
@@ -241,6 +250,13 @@ Definition violation1 (c : case) : option string :=
       | _ => None
       end
   | OpRegister amt s w =>
+      if negb (sends_ok c (Some amt)) then Some "value"%string
+      else match res c with
+           | ObsReg 0 => if mined_ok c s w then None else Some "ok-on-failed-receipt"%string
+           | _ => None
+           end
+  | OpRegisterVia amt s w late =>
+      (* judged against what the chain holds, not against what the client handed over *)
       if negb (sends_ok c (Some amt)) then Some "value"%string
       else match res c with
            | ObsReg 0 => if mined_ok c s w then None else Some "ok-on-failed-receipt"%string
